@@ -223,3 +223,52 @@ package util
 //@   ensures #keys: forall n corev1.ResourceName :: {has(result, n)} has(result, n) <==> (n == corev1.ResourceCPU || n == corev1.ResourceMemory)
 //@   ensures #vals: forall n corev1.ResourceName :: {val(result, n)} val(result, n) == (n == corev1.ResourceCPU ? val(resourcesForCPU, n) : (n == corev1.ResourceMemory ? val(resourcesForMemory, n) : 0))
 //@   modifies nothing
+
+// ---- NUMA zones ----
+// ceil(m / d) milli-units as a quantity (what DivideResourceList stores); opaque so that equal divisors give equal values by congruence.
+//@ spec func divCeil(m real, d real) real = real(ceil(m / d)) / 1000
+//@ opaque divCeil
+
+// Every entry is divided by the divisor, rounded up to whole milli-units; a zero divisor returns the list itself.
+//@ func DivideResourceList [C09]
+//@   ensures #zero: divisor == 0 ==> result == rl
+//@   ensures #fresh: divisor != 0 ==> fresh(result) && result != nil
+//@   ensures #keys: divisor != 0 ==> (forall n corev1.ResourceName :: {has(result, n)} has(result, n) == has(rl, n))
+//@   ensures #vals: divisor != 0 ==> (forall n corev1.ResourceName :: {val(result, n)} has(rl, n) ==> val(result, n) == divCeil(real(val(rl, n).MilliValue()), divisor))
+//@   modifies nothing
+//@   loop 1 invariant divided != nil && fresh(divided) && divided != rl
+//@   loop 1 invariant forall n corev1.ResourceName :: {has(divided, n)} has(divided, n) <==> $seen[n]
+//@   loop 1 invariant forall n corev1.ResourceName :: {$seen[n]} $seen[n] ==> has(rl, n)
+//@   loop 1 invariant forall n corev1.ResourceName :: {val(divided, n)} $seen[n] ==> val(divided, n) == divCeil(real(val(rl, n).MilliValue()), divisor)
+
+// Per-zone share of a pod's request and usage. L = the NUMA entries listed in the pod's resource status; an entry is in range when
+// 0 <= Node < numaNum; k = number of in-range entries (loop 1 counts them). No in-range entry: every zone gets 1/numaNum; otherwise
+// a zone that is not listed gets nothing and a listed one gets 1/k. k itself cannot be written as a sum in the spec language: it is
+// pinned by 0 <= k <= (entries seen), k == 0 exactly when no entry seen is in range, k == (entries seen) when all are in range, and
+// k == (entries seen) - 1 when exactly one is out of range; the divisor handed to DivideResourceList is k (or numaNum when k == 0).
+//@ spec func inR(l []extension.NUMANodeResource, j int, numaNum int) bool = 0 <= l[j].Node && l[j].Node < numaNum
+//@ func GetPodNUMARequestAndUsage [C09]
+//@   requires pod != nil && numaNum >= 0
+//@   ensures #len: len(result0) == numaNum && len(result1) == numaNum
+//@   assert before call DivideResourceList: $arg1 == real(numaNum) || ($arg1 == real(allocatedNUMANum) && allocatedNUMANum >= 1)
+//@   loop 1 invariant #rng: 0 <= $i && $i <= len(podAlloc.NUMANodeResources) && allocatedNUMAMap != nil
+//@   loop 1 invariant #bounds: 0 <= allocatedNUMANum && allocatedNUMANum <= $i
+//@   loop 1 invariant #zero: allocatedNUMANum == 0 <==> (forall j int :: 0 <= j && j < $i ==> !inR(podAlloc.NUMANodeResources, j, numaNum))
+//@   loop 1 invariant #all: (forall j int :: 0 <= j && j < $i ==> inR(podAlloc.NUMANodeResources, j, numaNum)) ==> allocatedNUMANum == $i
+//@   loop 1 invariant #oneout: forall j0 int :: 0 <= j0 && j0 < $i && !inR(podAlloc.NUMANodeResources, j0, numaNum) && (forall j int :: 0 <= j && j < $i && j != j0 ==> inR(podAlloc.NUMANodeResources, j, numaNum)) ==> allocatedNUMANum == $i - 1
+//@   loop 1 invariant #listed: forall z int :: {has(allocatedNUMAMap, z)} has(allocatedNUMAMap, z) <==> (exists j int :: 0 <= j && j < $i && podAlloc.NUMANodeResources[j].Node == z)
+//@   loop 2 invariant #idx: 0 <= i && i <= numaNum && len(podNUMARequest) == numaNum && len(podNUMAUsage) == numaNum && arr(podNUMARequest) != arr(podNUMAUsage)
+//@   loop 2 invariant #req: forall z int, n corev1.ResourceName :: {val(podNUMARequest[z], n)} 0 <= z && z < i && has(podRequest, n) ==> val(podNUMARequest[z], n) == divCeil(real(val(podRequest, n).MilliValue()), real(numaNum))
+//@   loop 2 invariant #use: forall z int, n corev1.ResourceName :: {val(podNUMAUsage[z], n)} 0 <= z && z < i && has(podUsage, n) ==> val(podNUMAUsage[z], n) == divCeil(real(val(podUsage, n).MilliValue()), real(numaNum))
+//@   loop 3 invariant #idx: 0 <= i && i <= numaNum && len(podNUMARequest) == numaNum && len(podNUMAUsage) == numaNum && arr(podNUMARequest) != arr(podNUMAUsage) && allocatedNUMANum >= 1
+//@   loop 3 invariant #req: forall z int, n corev1.ResourceName :: {val(podNUMARequest[z], n)} 0 <= z && z < i ==> (has(allocatedNUMAMap, z) ? (has(podRequest, n) ==> val(podNUMARequest[z], n) == divCeil(real(val(podRequest, n).MilliValue()), real(allocatedNUMANum))) : val(podNUMARequest[z], n) == 0)
+//@   loop 3 invariant #use: forall z int, n corev1.ResourceName :: {val(podNUMAUsage[z], n)} 0 <= z && z < i ==> (has(allocatedNUMAMap, z) ? (has(podUsage, n) ==> val(podNUMAUsage[z], n) == divCeil(real(val(podUsage, n).MilliValue()), real(allocatedNUMANum))) : val(podNUMAUsage[z], n) == 0)
+// the property, stated at the return over the decoded resource status (podAlloc) and the slices returned
+//@   assert at return: #none_req: (forall j int :: 0 <= j && j < len(podAlloc.NUMANodeResources) ==> !inR(podAlloc.NUMANodeResources, j, numaNum)) ==> (forall z int, n corev1.ResourceName :: {val(podNUMARequest[z], n)} 0 <= z && z < numaNum && has(podRequest, n) ==> val(podNUMARequest[z], n) == divCeil(real(val(podRequest, n).MilliValue()), real(numaNum)))
+//@   assert at return: #unlisted_req: (exists j int :: 0 <= j && j < len(podAlloc.NUMANodeResources) && inR(podAlloc.NUMANodeResources, j, numaNum)) ==> (forall z int, n corev1.ResourceName :: {val(podNUMARequest[z], n)} 0 <= z && z < numaNum && !(exists j int :: 0 <= j && j < len(podAlloc.NUMANodeResources) && podAlloc.NUMANodeResources[j].Node == z) ==> val(podNUMARequest[z], n) == 0)
+//@   assert at return: #all_req: len(podAlloc.NUMANodeResources) >= 1 && (forall j int :: 0 <= j && j < len(podAlloc.NUMANodeResources) ==> inR(podAlloc.NUMANodeResources, j, numaNum)) ==> (forall z int, n corev1.ResourceName :: {val(podNUMARequest[z], n)} 0 <= z && z < numaNum && (exists j int :: 0 <= j && j < len(podAlloc.NUMANodeResources) && podAlloc.NUMANodeResources[j].Node == z) && has(podRequest, n) ==> val(podNUMARequest[z], n) == divCeil(real(val(podRequest, n).MilliValue()), real(len(podAlloc.NUMANodeResources))))
+//@   assert at return: #oneout_req: forall j0 int :: 0 <= j0 && j0 < len(podAlloc.NUMANodeResources) && len(podAlloc.NUMANodeResources) >= 2 && !inR(podAlloc.NUMANodeResources, j0, numaNum) && (forall j int :: 0 <= j && j < len(podAlloc.NUMANodeResources) && j != j0 ==> inR(podAlloc.NUMANodeResources, j, numaNum)) ==> (forall z int, n corev1.ResourceName :: {val(podNUMARequest[z], n)} 0 <= z && z < numaNum && (exists j int :: 0 <= j && j < len(podAlloc.NUMANodeResources) && podAlloc.NUMANodeResources[j].Node == z) && has(podRequest, n) ==> val(podNUMARequest[z], n) == divCeil(real(val(podRequest, n).MilliValue()), real(len(podAlloc.NUMANodeResources) - 1)))
+//@   assert at return: #none_use: (forall j int :: 0 <= j && j < len(podAlloc.NUMANodeResources) ==> !inR(podAlloc.NUMANodeResources, j, numaNum)) ==> (forall z int, n corev1.ResourceName :: {val(podNUMAUsage[z], n)} 0 <= z && z < numaNum && has(podUsage, n) ==> val(podNUMAUsage[z], n) == divCeil(real(val(podUsage, n).MilliValue()), real(numaNum)))
+//@   assert at return: #unlisted_use: (exists j int :: 0 <= j && j < len(podAlloc.NUMANodeResources) && inR(podAlloc.NUMANodeResources, j, numaNum)) ==> (forall z int, n corev1.ResourceName :: {val(podNUMAUsage[z], n)} 0 <= z && z < numaNum && !(exists j int :: 0 <= j && j < len(podAlloc.NUMANodeResources) && podAlloc.NUMANodeResources[j].Node == z) ==> val(podNUMAUsage[z], n) == 0)
+//@   assert at return: #all_use: len(podAlloc.NUMANodeResources) >= 1 && (forall j int :: 0 <= j && j < len(podAlloc.NUMANodeResources) ==> inR(podAlloc.NUMANodeResources, j, numaNum)) ==> (forall z int, n corev1.ResourceName :: {val(podNUMAUsage[z], n)} 0 <= z && z < numaNum && (exists j int :: 0 <= j && j < len(podAlloc.NUMANodeResources) && podAlloc.NUMANodeResources[j].Node == z) && has(podUsage, n) ==> val(podNUMAUsage[z], n) == divCeil(real(val(podUsage, n).MilliValue()), real(len(podAlloc.NUMANodeResources))))
+//@   assert at return: #oneout_use: forall j0 int :: 0 <= j0 && j0 < len(podAlloc.NUMANodeResources) && len(podAlloc.NUMANodeResources) >= 2 && !inR(podAlloc.NUMANodeResources, j0, numaNum) && (forall j int :: 0 <= j && j < len(podAlloc.NUMANodeResources) && j != j0 ==> inR(podAlloc.NUMANodeResources, j, numaNum)) ==> (forall z int, n corev1.ResourceName :: {val(podNUMAUsage[z], n)} 0 <= z && z < numaNum && (exists j int :: 0 <= j && j < len(podAlloc.NUMANodeResources) && podAlloc.NUMANodeResources[j].Node == z) && has(podUsage, n) ==> val(podNUMAUsage[z], n) == divCeil(real(val(podUsage, n).MilliValue()), real(len(podAlloc.NUMANodeResources) - 1)))
